@@ -1,20 +1,23 @@
 // Correspondence driver for C06 (gmtls handshakes agree on parameters and keys, then carry data intact).
 //
-//   c06 gen <seed> <tier> <cases-out> <obs-out>     generate cases and run /repo on them
-//   c06 run <cases-in> <obs-out>                    run /repo on given cases (replay, corpus)
+//	c06 gen <seed> <tier> <cases-out> <obs-out>     generate cases and run /repo on them
+//	c06 run <cases-in> <obs-out>                    run /repo on given cases (replay, corpus)
 //
 // Case lines:
-//   A id mode ckind csuites ssuites prefer auth ccert callbacks tickets peer c2s s2c seed
-//        mode gm|auto|tls; ckind g|t10|t11|t12; suites n|hex+hex; ccert n|t|u;
-//        peer gg (gmtls client, gmtls server) | gs (gmtls client, Go crypto/tls server) | sg (Go crypto/tls client,
-//        gmtls server); c2s / s2c = bytes of application data per direction, written in random fragments
-//   D id suite seed c2s s2c ms cr sr recs_c2s recs_s2c
-//        a captured GMSSL connection: master secret (key log), hello randoms, the raw application-data records of
-//        both directions; the extracted specification derives the keys and opens the records.  On replay the
-//        driver repeats a connection with the same parameters and reports what the applications sent.
+//
+//	A id mode ckind csuites ssuites prefer auth ccert callbacks tickets peer c2s s2c seed
+//	     mode gm|auto|tls; ckind g|t10|t11|t12; suites n|hex+hex; ccert n|t|u;
+//	     peer gg (gmtls client, gmtls server) | gs (gmtls client, Go crypto/tls server) | sg (Go crypto/tls client,
+//	     gmtls server); c2s / s2c = bytes of application data per direction, written in random fragments
+//	D id suite seed c2s s2c ms cr sr recs_c2s recs_s2c
+//	     a captured GMSSL connection: master secret (key log), hello randoms, the raw application-data records of
+//	     both directions; the extracted specification derives the keys and opens the records.  On replay the
+//	     driver repeats a connection with the same parameters and reports what the applications sent.
+//
 // Observations:
-//   A: ok cls vers suite ekmeq pcc pcs data        cls C|E|P|H|1c|1s|D     (E: "ok E")
-//   D: ok plain_c2s plain_s2c
+//
+//	A: ok cls vers suite ekmeq pcc pcs data        cls C|E|P|H|1c|1s|D     (E: "ok E")
+//	D: ok plain_c2s plain_s2c
 //
 //go:debug tlsunsafeekm=1
 package main
@@ -715,7 +718,24 @@ func (c cfgIdx) line(id int, peer string, c2s, s2c, seed int) string {
 		ccerts[c[6]], c[7], c[8], peer, c2s, s2c, seed, c[9], c[10]+1, closers[c[11]], rbuf)
 }
 
-// cheap over-approximation of "probably allowed", used only to steer the sampling
+// suiteUsable: can both ends run this suite at this client kind (RSA server certificate, no ECDHE-SM2 server side)?
+// Used only to steer the sampling towards completing configurations; verdicts come from the check module and the model.
+func suiteUsable(id string, ckind string) bool {
+	switch id {
+	case "e013", "e053":
+		return ckind == "g"
+	case "002f", "0035", "c014", "c012", "000a", "0005", "c011":
+		return ckind != "g"
+	case "009c", "009d", "c02f", "c030", "cca8", "003c":
+		return ckind == "t12"
+	}
+	return false
+}
+
+var gmDefaults = []string{"e013", "e053", "e011", "e051"}
+var tlsDefaults = []string{"cca8", "cca9", "c02f", "c030", "c02b", "c02c", "c009", "c014", "c00a", "009c", "009d", "002f", "0035", "c012", "000a"}
+
+// plausible: the configuration should complete (same reading of the policy as checks/c06.py allowed())
 func plausible(c cfgIdx) bool {
 	gm := c[1] == 0
 	if gm && c[0] == 2 || !gm && c[0] == 0 {
@@ -729,12 +749,27 @@ func plausible(c cfgIdx) bool {
 	if (c[5] == 2 || c[5] == 4) && c[6] == 0 || c[5] >= 3 && (c[6] == 2 || c[6] == 1 && c[9] == 0) {
 		return false
 	}
-	gmList := func(i int, l []string) bool { return l[i] == "n" || strings.HasPrefix(l[i], "e0") }
-	tlsList := func(i int, l []string) bool { return l[i] == "n" || !strings.HasPrefix(l[i], "e0") }
-	if gm {
-		return gmList(c[2], cSuites) && gmList(c[3], sSuites)
+	list := func(s string) []string {
+		if s == "n" {
+			if gm {
+				return gmDefaults
+			}
+			return tlsDefaults
+		}
+		return strings.Split(s, "+")
 	}
-	return tlsList(c[2], cSuites) && tlsList(c[3], sSuites)
+	sl := list(sSuites[c[3]])
+	for _, id := range list(cSuites[c[2]]) {
+		if !suiteUsable(id, ckinds[c[1]]) {
+			continue
+		}
+		for _, x := range sl {
+			if x == id {
+				return true
+			}
+		}
+	}
+	return false
 }
 
 func pairwise(r *hx.Rng) []cfgIdx {
@@ -801,7 +836,7 @@ func sizes(r *hx.Rng, big bool) (int, int) {
 		case 2:
 			return []int{16383, 16384, 16385, 32768, 1, 15, 16, 17}[r.Intn(8)]
 		case 3:
-			return r.Intn(65536)
+			return r.Intn(30000)
 		default:
 			return r.Intn(6000)
 		}
@@ -827,14 +862,14 @@ func gen(seed uint64, tier string) (cases []string, pre map[int]string) {
 		c    cfgIdx
 		peer string
 	}{
-		{cfgIdx{0, 0, 1, 0, 0, 0, 0, 0, 1, 1, 0, 0}, "gg"}, // GMSSL-only, ECC-SM4-CBC-SM3
-		{cfgIdx{0, 0, 2, 2, 1, 4, 1, 0, 0, 1, 0, 0}, "gg"}, // GMSSL-only, GCM, mutual authentication
-		{cfgIdx{1, 0, 5, 0, 0, 1, 2, 1, 1, 1, 0, 0}, "gg"}, // auto-switch, ECDHE offered first -> ECC
-		{cfgIdx{1, 3, 7, 0, 0, 0, 0, 1, 1, 1, 0, 0}, "gg"}, // auto-switch, TLS 1.2 ECDHE-RSA-AES128-GCM
-		{cfgIdx{2, 1, 6, 3, 0, 3, 1, 0, 0, 1, 0, 0}, "gg"}, // TLS-only, TLS 1.0 RSA-AES128-CBC (1/n-1 split)
+		{cfgIdx{0, 0, 1, 0, 0, 0, 0, 0, 1, 1, 0, 0}, "gg"},  // GMSSL-only, ECC-SM4-CBC-SM3
+		{cfgIdx{0, 0, 2, 2, 1, 4, 1, 0, 0, 1, 0, 0}, "gg"},  // GMSSL-only, GCM, mutual authentication
+		{cfgIdx{1, 0, 5, 0, 0, 1, 2, 1, 1, 1, 0, 0}, "gg"},  // auto-switch, ECDHE offered first -> ECC
+		{cfgIdx{1, 3, 7, 0, 0, 0, 0, 1, 1, 1, 0, 0}, "gg"},  // auto-switch, TLS 1.2 ECDHE-RSA-AES128-GCM
+		{cfgIdx{2, 1, 6, 3, 0, 3, 1, 0, 0, 1, 0, 0}, "gg"},  // TLS-only, TLS 1.0 RSA-AES128-CBC (1/n-1 split)
 		{cfgIdx{2, 2, 10, 0, 1, 2, 2, 1, 1, 1, 0, 0}, "gg"}, // TLS-only, TLS 1.1
-		{cfgIdx{0, 0, 3, 2, 1, 3, 1, 1, 1, 1, 0, 0}, "gg"}, // GMSSL-only server with GetCertificate / GetKECertificate only
-		{cfgIdx{2, 3, 7, 3, 0, 0, 0, 0, 1, 1, 0, 0}, "gs"}, // gmtls client, crypto/tls server
+		{cfgIdx{0, 0, 3, 2, 1, 3, 1, 1, 1, 1, 0, 0}, "gg"},  // GMSSL-only server with GetCertificate / GetKECertificate only
+		{cfgIdx{2, 3, 7, 3, 0, 0, 0, 0, 1, 1, 0, 0}, "gs"},  // gmtls client, crypto/tls server
 		{cfgIdx{2, 1, 6, 3, 0, 1, 1, 0, 0, 1, 0, 0}, "gs"},
 		{cfgIdx{1, 3, 7, 3, 0, 4, 1, 1, 1, 1, 0, 0}, "sg"}, // crypto/tls client, gmtls auto-switch server
 		{cfgIdx{2, 2, 10, 0, 0, 0, 0, 0, 0, 1, 0, 0}, "sg"},
@@ -907,6 +942,63 @@ func gen(seed uint64, tier string) (cases []string, pre map[int]string) {
 		}
 		cases = append(cases, fc.c.line(id, fc.peer, a, b, 1+r.Intn(100000)))
 	}
+	// 0b. the completing matrix (audit round 2): every GMSSL suite x every ClientAuth policy x client certificate
+	//     none / CA-issued / forged issuer, with the payload sizes 0, 1, 16383, 16384, 16385, 40000 rotating through both
+	//     directions; every TLS suite the RSA server certificate can run at every version it exists in; interoperation
+	//     with crypto/tls in both directions at TLS 1.0, 1.1, 1.2.  (Suite lists here are single suites: outside the
+	//     product of the sweep theorem, inside what the models and the policy evaluate.)
+	psz := []int{0, 1, 16383, 16384, 16385, 40000}
+	mk := func(mode, ckind, cs, ss string, prefer, auth int, ccert string, cb, tk int, peer string, c2s, s2c, pool, conns int) {
+		id++
+		cases = append(cases, fmt.Sprintf("A %d %s %s %s %s %d %d %s %d %d %s %d %d %d %d %d - 512", id, mode, ckind, cs, ss, prefer, auth,
+			ccert, cb, tk, peer, c2s, s2c, 1+r.Intn(100000), pool, conns))
+	}
+	j := 0
+	for _, su := range []string{"e013", "e053"} {
+		for auth := 0; auth <= 4; auth++ {
+			for _, cc := range []string{"n", "t", "u"} {
+				mode, cb := []string{"gm", "auto", "gm"}[j%3], []int{0, 1, 1}[j%3]
+				mk(mode, "g", su, []string{su, "n", "e013+e053"}[j%3], j%2, auth, cc, cb, (j/2)%2, "gg", psz[j%6], psz[(j+3)%6], 1, 1)
+				j++
+			}
+		}
+		// the payload sizes once more on plainly completing configurations (mutual authentication, both directions large)
+		for k, a := range psz {
+			mk("gm", "g", su, su, 0, []int{4, 3, 1}[k%3], "t", 0, 1, "gg", a, psz[(k+1)%6], 1, 1)
+		}
+	}
+	type tsu struct {
+		id     string
+		only12 bool
+	}
+	tlsRun := []tsu{{"cca8", true}, {"c02f", true}, {"c030", true}, {"009c", true}, {"009d", true}, {"003c", true},
+		{"c014", false}, {"002f", false}, {"0035", false}, {"c012", false}, {"000a", false}, {"0005", false}, {"c011", false}}
+	for _, su := range tlsRun {
+		for _, ck := range []string{"t10", "t11", "t12"} {
+			if su.only12 && ck != "t12" {
+				continue
+			}
+			mode, cb := []string{"tls", "auto", "tls"}[j%3], []int{0, 1, 1}[j%3]
+			auth, cc := [][2]interface{}{{0, "n"}, {4, "t"}, {1, "t"}, {3, "t"}, {2, "u"}, {1, "n"}}[j%6][0].(int), [][2]interface{}{{0, "n"}, {4, "t"}, {1, "t"}, {3, "t"}, {2, "u"}, {1, "n"}}[j%6][1].(string)
+			mk(mode, ck, su.id, su.id, j%2, auth, cc, cb, (j/2)%2, "gg", psz[j%6], psz[(j+2)%6], 1, 1+(j%5)/4)
+			j++
+		}
+	}
+	// crypto/tls on one end: what the standard library still implements of the table
+	for _, peer := range []string{"gs", "sg"} {
+		for _, vs := range [][]string{{"t10", "002f", "0035", "c014", "000a"}, {"t11", "002f", "0035", "c014", "c012"},
+			{"t12", "009c", "009d", "c02f", "c030", "cca8", "003c", "002f"}} {
+			for _, su := range vs[1:] {
+				mode, cb := "tls", 0
+				if peer == "sg" && j%2 == 0 {
+					mode, cb = "auto", 1
+				}
+				auth, cc := []int{0, 4, 1, 3}[j%4], []string{"n", "t", "t", "n"}[j%4]
+				mk(mode, vs[0], su, su, 0, auth, cc, cb, j%2, peer, psz[j%6], psz[(j+4)%6], 1, 1)
+				j++
+			}
+		}
+	}
 	// 1. pairwise cover of the product, gmtls on both ends
 	for _, c := range pairwise(r) {
 		addCfg(c, "gg", false)
@@ -937,7 +1029,7 @@ func gen(seed uint64, tier string) (cases []string, pre map[int]string) {
 		}
 	}
 	// 3. interoperation with the Go standard library for TLS 1.0-1.2, both directions
-	nI := 60
+	nI := 40
 	if thorough {
 		nI = 1200
 	}
@@ -959,6 +1051,9 @@ func gen(seed uint64, tier string) (cases []string, pre map[int]string) {
 			c[0] = 1 + r.Intn(2)
 		}
 		if strings.HasPrefix(cSuites[c[2]], "e0") && r.Intn(4) > 0 {
+			continue
+		}
+		if !plausible(c) && r.Intn(5) > 0 { // the forbidden class is kept, but capped
 			continue
 		}
 		addCfg(c, peer, n == 1)
